@@ -171,16 +171,15 @@ Definition lk_add (n : Z) (l : list Z) : list Z := if existsb (Z.eqb n) l then l
 Definition unlock_all_calls (f : Z -> option bool) (lk : list Z) : list call :=
   flat_map (fun n => match f n with Some true => [CErase (KLock n)] | _ => [] end) lk.
 
-Fixpoint rm_calls (m : mem) (ks : list Z) : option (list call) :=
+(* RemoveTxs(batch, txs): for each id in order: unknown -> error (the caller aborts the transaction), else EraseTx.
+   Result: the calls made, and whether every id was known. *)
+Fixpoint rm_calls (m : mem) (ks : list Z) : list call * bool :=
   match ks with
-  | [] => Some []
+  | [] => ([], true)
   | k :: r =>
     match m_tx m k with
-    | None => None                                  (* "Transaction %s does not belong to this wallet": abort *)
-    | Some _ => match rm_calls m r with
-                | Some cs => Some (CErase (KTx k) :: CErasePrefixTxVar k :: cs)
-                | None => None
-                end
+    | None => ([], false)                           (* "Transaction %s does not belong to this wallet" *)
+    | Some _ => let '(cs, ok) := rm_calls m r in (CErase (KTx k) :: CErasePrefixTxVar k :: cs, ok)
     end
   end.
 Fixpoint tx_remove (f : Z -> option Z) (ks : list Z) : Z -> option Z :=
@@ -242,12 +241,11 @@ Definition op_effect (upgrade : bool) (kp : Z) (m : mem) (o : op) : mem * list c
        [CWrite KOrderPos (VZ (m_opn m + 1)); CWrite (KTxVar k) VUnit; CWrite (KTx k) (VTx (m_opn m))], true)
     end
   | ORmTx ks =>
-    match rm_calls m ks with
-    | None => (m, [CBegin; CAbort], false)            (* the erases made before the unknown id are rolled back *)
-    | Some cs =>
-      (mkMem (m_desc m) (m_imp m) (m_label m) (m_purpose m) (m_used m) (m_rr m) (m_locks m) (m_lk m) (tx_remove (m_tx m) ks) (m_opn m) (m_flag m),
-       CBegin :: cs ++ [CCommit], true)
-    end
+    let '(cs, ok) := rm_calls m ks in
+    if ok
+    then (mkMem (m_desc m) (m_imp m) (m_label m) (m_purpose m) (m_used m) (m_rr m) (m_locks m) (m_lk m) (tx_remove (m_tx m) ks) (m_opn m) (m_flag m),
+          CBegin :: cs ++ [CCommit], true)
+    else (m, CBegin :: cs ++ [CAbort], false)         (* the erases made before the unknown id are rolled back *)
   | OTop s n =>
     let '(d1, cs) := topup_calls kp s (m_desc m s) n in
     (mkMem (nset (m_desc m) s d1) (m_imp m) (m_label m) (m_purpose m) (m_used m) (m_rr m) (m_locks m) (m_lk m) (m_tx m) (m_opn m) (m_flag m), cs, true)
